@@ -22,7 +22,8 @@ BATCHES_C19 = {
 
 SWEEP = {
     "quick": dict(programs=4, points=10),
-    "thorough": dict(programs=40, points=0),
+    # (every fault point of 40 programs would be ~60 000 runs / 30 M records: sampled instead)
+    "thorough": dict(programs=12, points=40),
 }
 
 MC = {"C06": ["MC_ClientChan"]}
@@ -261,7 +262,7 @@ def run(prop, tier, seed):
         cov["roles"] += summ.get("roles", 0)
         recs = vlib.read_ndjson(cpath)
         cov["records"] += len(recs)
-        res = vlib.tlc_trace("Trace_Client.tla", "Trace_Client.cfg", cpath)
+        res = vlib.tlc_trace_sharded("Trace_Client.tla", "Trace_Client.cfg", cpath, shards=12 if tier == "thorough" else 4)
         if not res["consumed"]:
             raise vlib.ToolError(f"client log {cpath} was not consumed (stopped at {res['consumed_upto']})")
         start = 0
@@ -282,7 +283,7 @@ def run(prop, tier, seed):
             else:
                 verdict.note(f"violation of {p} observed while checking {prop}: {why} (batch {bi}, seed {s}, record {idx})")
         # the broker side of the same runs
-        bres = vlib.tlc_trace("Trace_Obs.tla", "Trace_Obs.cfg", bpath)
+        bres = vlib.tlc_trace_sharded("Trace_Obs.tla", "Trace_Obs.cfg", bpath, shards=12 if tier == "thorough" else 4)
         brecs = None
         cov["broker_records"] += bres["states"] - 1
         for (idx, p, why) in bres["violations"]:
@@ -293,10 +294,11 @@ def run(prop, tier, seed):
                 verdict.violation(why, dict(kind=driver + "-broker", driver_args=[str(x) for x in args], record_index=idx, trace=brecs[a:b]))
             else:
                 verdict.note(f"broker-side violation of {p} observed while checking {prop}: {why} (batch {bi}, seed {s}, record {idx})")
-        conf = vlib.tlc_trace("Trace_Broker.tla", "Trace_Broker.cfg", bpath)
+        conf = vlib.tlc_trace_sharded("Trace_Broker.tla", "Trace_Broker.cfg", bpath, shards=12 if tier == "thorough" else 4)
         for (idx, why) in conf["drifts"]:
             cov["drift"] += 1
-            log(f"DRIFT property={prop} the broker deviates from Broker.tla: {why} (batch {bi}, seed {s}, record {idx})")
+            if cov["drift"] <= 10:
+                log(f"DRIFT property={prop} the broker deviates from Broker.tla: {why} (batch {bi}, seed {s}, record {idx})")
     coverage = dict(
         evaluations=cov["runs"], distinct_nontrivial=len(sigs),
         rule=("one evaluation = one closed multi-client program (servers, callers, subscribers, channel pairs, chaos roles over "
